@@ -666,6 +666,7 @@ class SimPool:
         else:
             sched.parent_image.refresh()
         self.fork_image = sched.parent_image.forked()
+        self.nprocs = int(processes)
         self.workers = [SimWorker(self, i) for i in range(int(processes))]
         wts = sched.cfg["weights"]
         for w in self.workers:
